@@ -237,7 +237,9 @@ def scaling_case(rec, seedt, tier):
         else:
             ra, rb = anA.compute(), anB.compute()
             rec.count("fs_law_asserted")
-            tolf = 1e-11
+            # omega = 2*pi*f/fs is re-rounded when a is not a power of two: a relative
+            # perturbation ~2u of omega moves X by up to ~2u*pi*L relative
+            tolf = 1e-11 + 8 * refmodel.U * np.pi * float(np.max(ra.L))
             for name, got, exp in [("f*a", rb.f, a * ra.f), ("ENBW*a", rb.ENBW, a * ra.ENBW),
                                    ("Gxx/a", rb.Gxx, ra.Gxx / a), ("Gyy/a", rb.Gyy, ra.Gyy / a),
                                    ("Gxy/a", rb.Gxy, ra.Gxy / a), ("coh", rb.coh, ra.coh),
